@@ -557,7 +557,8 @@ pub fn run_script(cfg: &Cfg, spec: &ProbeSpec, script: &[StepScript]) -> Obs {
                 step += 1;
                 words.get(step - 1).map(|w| w.0).unwrap_or_else(|| index_word(0, n))
             }
-            Draw::Delta => words.get(step.max(1) - 1).map(|w| w.1).unwrap_or_else(|| unit_word(0.5)),
+            // (a displacement draw beyond the script - a move the run was not asked for - moves)
+            Draw::Delta => words.get(step.max(1) - 1).map(|w| w.1).unwrap_or_else(|| unit_word(0.25)),
             Draw::Threshold => words.get(step.max(1) - 1).map(|w| w.2).unwrap_or_else(|| threshold_word(0.5)),
             Draw::Other => real,
         };
@@ -699,6 +700,10 @@ pub struct Analysis {
     /// flags common to every consistent history (a property is violated only if no consistent
     /// history avoids the flag)
     pub flags_all: u32,
+    /// the same over the histories that obey the deterministic clauses of the acceptance rule
+    /// (nothing without a score accepted, nothing better rejected, nothing worse accepted at zero
+    /// temperature); equal to flags_all when no history obeys them
+    pub flags_lawful: u32,
     /// number of consistent histories at the end
     pub histories: usize,
     /// accept word and final believed score when the history is unique
@@ -749,6 +754,23 @@ fn expected(cfg: &Cfg, t: usize, a: Option<f64>, cur: f64, thr: Option<f64>) -> 
 }
 
 /// `step_bound[i]`: largest admissible |move| of coordinate i (C19), or None to skip that monitor.
+fn lawful_and<'a, I: Iterator<Item = &'a Cand>>(it: I, fallback: u32) -> u32 {
+    let unlawful = F_NONE_ACCEPTED | F_BETTER_REJECTED | F_WORSE_ACCEPTED_ZERO_T_FIRST | F_WORSE_ACCEPTED_ZERO_T_LATER;
+    let mut acc = u32::MAX;
+    let mut any = false;
+    for c in it {
+        if c.flags & unlawful == 0 {
+            acc &= c.flags;
+            any = true;
+        }
+    }
+    if any {
+        acc
+    } else {
+        fallback
+    }
+}
+
 pub fn analyse(cfg: &Cfg, obs: &Obs, step_bound: Option<&[f64]>) -> Analysis {
     let mut an = Analysis::default();
     let (p0, a0) = match &obs.initial {
@@ -850,6 +872,7 @@ pub fn analyse(cfg: &Cfg, obs: &Obs, step_bound: Option<&[f64]>) -> Analysis {
             // panicked: judge by all histories
             an.histories = cands.len();
             an.flags_all = cands.iter().fold(u32::MAX, |acc, c| acc & c.flags);
+            an.flags_lawful = lawful_and(cands.iter(), an.flags_all);
         }
         Some(fp) => {
             let fb = bits(fp);
@@ -861,6 +884,7 @@ pub fn analyse(cfg: &Cfg, obs: &Obs, step_bound: Option<&[f64]>) -> Analysis {
             }
             an.histories = matches.len();
             an.flags_all = matches.iter().fold(u32::MAX, |acc, c| acc & c.flags);
+            an.flags_lawful = lawful_and(matches.iter().cloned(), an.flags_all);
             an.first_flag_step = matches.iter().map(|c| c.first_flag_step).max().unwrap_or(0);
             let words: std::collections::BTreeSet<u64> = matches.iter().map(|c| c.word).collect();
             if words.len() == 1 && obs.proposals.len() <= 64 && !words_forgotten {
